@@ -28,6 +28,7 @@ func checkC15(p *Prog, r *Report) {
 	c15PTF(p, r)
 	c15PTFArgs(p, r)
 	c15TableOrder(p, r)
+	c15PTFPoreVolume(p, r)
 	c15Saturation(p, r, "C15.R3")
 	c15History(p, r, "C15.R4")
 	// the texture table cells are turned into numbers by the shared helpers
@@ -1215,4 +1216,130 @@ func factoredScale(a Poly) (float64, string, bool) {
 	u, _ := atomUnit(S)
 	cf, _ := c.Float64()
 	return cf * u, S.Key, true
+}
+
+// ---------------------------------------------------------------- pedotransfer route: pore volume holds the field capacity
+
+// c15PTFPoreVolume: on the pedotransfer route the field capacity comes from the transfer function and the pore volume
+// from the soil file; nothing relates them unless the input routine does.  Demanded: in the block that stores the pore
+// volume from the soil file under "a transfer function is selected", a later statement of the same block either ends
+// the run with an error when the pore volume is below the field capacity of the same layer, or caps the field capacity
+// at the pore volume; no store of either follows it in that block.
+func c15PTFPoreVolume(p *Prog, r *Report) {
+	r.Rule("C15.R2e", "pedotransfer route: the pore volume copied from the soil file is compared with the field capacity of the transfer function for the same layer, and a pore volume below it ends the run with an error (or the field capacity is capped at it) before either is used; no later store of either in that block", 1)
+	fi := p.Funcs["hermes.Input"]
+	if fi == nil {
+		r.Ob("ptf:fc<=pv", "-", false, "hermes.Input not found")
+		return
+	}
+	info := fi.Pkg.TypesInfo
+	fieldOf := func(e ast.Expr) (string, string) { // field name, index text of g.F[idx]
+		ix, ok := e.(*ast.IndexExpr)
+		if !ok {
+			return "", ""
+		}
+		se, ok := ix.X.(*ast.SelectorExpr)
+		if !ok {
+			return "", ""
+		}
+		if sel, ok := info.Selections[se]; !ok || sel.Kind() != types.FieldVal {
+			return "", ""
+		}
+		return se.Sel.Name, types.ExprString(ix.Index)
+	}
+	mentionsField := func(n ast.Node, name string) bool {
+		f := false
+		ast.Inspect(n, func(m ast.Node) bool {
+			if se, ok := m.(*ast.SelectorExpr); ok && se.Sel.Name == name {
+				if sel, ok := info.Selections[se]; ok && sel.Kind() == types.FieldVal {
+					f = true
+				}
+			}
+			return true
+		})
+		return f
+	}
+	found := 0
+	ast.Inspect(fi.Decl.Body, func(n ast.Node) bool {
+		blk, ok := n.(*ast.BlockStmt)
+		if !ok {
+			return true
+		}
+		for i, st := range blk.List {
+			as, ok := st.(*ast.AssignStmt)
+			if !ok || len(as.Lhs) != 1 || len(as.Rhs) != 1 {
+				continue
+			}
+			name, idx := fieldOf(as.Lhs[0])
+			if name != "PORGES" || !mentionsField(as.Rhs[0], "GPV") {
+				continue
+			}
+			// only the arm in which a transfer function is selected: the path conditions mention PTF and the block
+			// (or an earlier sibling) stores the field capacity from a PTFn call
+			conds, _ := astPathConds(info, fi.Decl.Body, st)
+			onPTF := false
+			for _, c := range conds {
+				if !mentionsField(c.E, "PTF") {
+					continue
+				}
+				// "PTF == 0" taken positively is the route without a transfer function
+				if be, isBe := c.E.(*ast.BinaryExpr); isBe && be.Op == token.EQL && !c.Neg {
+					if tv, has := info.Types[be.Y]; has && tv.Value != nil && tv.Value.String() == "0" {
+						continue
+					}
+				}
+				onPTF = true
+			}
+			if !onPTF {
+				continue
+			}
+			found++
+			ok, det := false, "no statement after the store compares the pore volume with the field capacity of the layer"
+			for j := i + 1; j < len(blk.List); j++ {
+				// a later store of W or PORGES in the block voids an earlier check
+				if as2, isAs := blk.List[j].(*ast.AssignStmt); isAs {
+					for _, l := range as2.Lhs {
+						if nm, _ := fieldOf(l); (nm == "W" || nm == "PORGES") && ok {
+							ok, det = false, "the field capacity or pore volume is stored again after the comparison at "+p.Pos(as2.Pos())
+						}
+					}
+				}
+				is, isIf := blk.List[j].(*ast.IfStmt)
+				if !isIf || is.Init != nil {
+					continue
+				}
+				be, isBe := is.Cond.(*ast.BinaryExpr)
+				if !isBe {
+					continue
+				}
+				ln, li := fieldOf(be.X)
+				rn, ri := fieldOf(be.Y)
+				below := (ln == "PORGES" && rn == "W" && (be.Op == token.LSS || be.Op == token.LEQ)) || (ln == "W" && rn == "PORGES" && (be.Op == token.GTR || be.Op == token.GEQ))
+				if !below || li != idx || ri != idx {
+					continue
+				}
+				// body: error return, or cap
+				if terminates(info, is.Body) && len(is.Body.List) > 0 {
+					if ret, isRet := is.Body.List[len(is.Body.List)-1].(*ast.ReturnStmt); isRet && len(ret.Results) == 1 {
+						if id, isId := ret.Results[0].(*ast.Ident); !(isId && id.Name == "nil") {
+							ok, det = true, "a pore volume below the field capacity of the same layer ends the run with an error at "+p.Pos(is.Pos())
+						}
+					}
+				} else if len(is.Body.List) == 1 {
+					if cs, isAs := is.Body.List[0].(*ast.AssignStmt); isAs && len(cs.Lhs) == 1 && len(cs.Rhs) == 1 {
+						cn, ci := fieldOf(cs.Lhs[0])
+						vn, vi := fieldOf(cs.Rhs[0])
+						if cn == "W" && vn == "PORGES" && ci == idx && vi == idx {
+							ok, det = true, "the field capacity is capped at the pore volume of the same layer at "+p.Pos(is.Pos())
+						}
+					}
+				}
+			}
+			r.Ob("ptf:fc<=pv", p.Pos(st.Pos()), ok, det)
+		}
+		return true
+	})
+	if found == 0 {
+		r.Ob("ptf:fc<=pv", "-", false, "the store of the soil file's pore volume on the pedotransfer route was not found in hermes.Input")
+	}
 }
